@@ -322,7 +322,7 @@ func C03(c *core.Ctx) {
 			continue
 		}
 		found := false
-		for _, ci := range core.FindCalls(fn, core.CalleeID{Pkg: "std/encoding", Recv: "TLNum", Name: w[2]}) {
+		for _, ci := range core.FindCallsDeep(fn, core.CalleeID{Pkg: "std/encoding", Recv: "TLNum", Name: w[2]}) {
 			recv, _ := core.CallArgs(ci.Common())
 			for _, l := range sl.Leaves(recv) {
 				if cl, ok := l.Val.(*ssa.Call); ok {
@@ -339,7 +339,7 @@ func C03(c *core.Ctx) {
 	// buffer it was given (wire[k] = ShrinkLength(wire[k], n)), on every call
 	nShrink := 0
 	for _, fn := range p.Funcs() {
-		for _, ci := range core.FindCalls(fn, core.CalleeID{Pkg: "std/encoding", Name: "ShrinkLength"}) {
+		for _, ci := range core.FindCallsDeep(fn, core.CalleeID{Pkg: "std/encoding", Name: "ShrinkLength"}) {
 			nShrink++
 			c.Funcs[core.FuncName(fn)] = true
 			arg := ci.Common().Args[0]
